@@ -416,6 +416,15 @@ class World(object):
         import periodictable as pt
         if tbl == "public":
             return pt.elements
+        if tbl == "T0":
+            # a bare private table as in the user guide (mass and density only): probing a lazy property through
+            # one of its atoms is one more way of touching the public loaders for the first time (C09)
+            if getattr(self, "bare", None) is None:
+                from periodictable import core, mass, density
+                self.bare = core.PeriodicTable("T0-bare")
+                mass.init(self.bare)
+                density.init(self.bare)
+            return self.bare
         return self.tables[tbl]
 
     def obj(self, route, tbl):
